@@ -259,11 +259,7 @@ func lsExec(in []uint64, batching bool) (obs []uint64, info map[string]int) {
 			rec.reset(0)
 			f := n.r.VerifAppendConfigurationEntry(raft.ConfigurationChangeCommand(cmd), idStr(id), addrStr(ad), prev)
 			futs = append(futs, newLsFuture(fid, f))
-			exp4 := 0
-			if f.Error != nil && n.r.VerifNodeState().LatestIndex != n.r.VerifNodeState().LastLogIndex {
-				exp4 = 0
-			}
-			o := append([]uint64{4}, collectN(exp4)...)
+			o := append([]uint64{4}, collectN(0)...)
 			o = append(o, rec.encode()...)
 			emit(append(o, encL()...))
 		case 5:
